@@ -287,6 +287,10 @@ def _mk(fam, tag, items, inputs, extra_tags=()):
         # DOS line endings: a path is read with universal newlines, a
         # StringIO hands the '\r' through to the parser
         text = text.replace('\n', '\r\n')
+    elif tag == 'bom':
+        # UTF-8 byte-order mark as prepended by some editors: whatever the
+        # parser makes of it, every delivery route must make the same
+        text = '\ufeff' + text
     elif tag in ('bter', 'cbt'):
         # unpadded TER records as written by PDB2PQR/GROMACS
         text = text.replace('TER   \n', 'TER\n')
@@ -318,6 +322,7 @@ def _family(fam, base, inputs, nvar, salt):
         ('bter', lambda: v_drop_oxt(base)),
         ('cbt', lambda: v_drop_oxt(base)),
         ('ion3', lambda: v_three_ion_types(base)),
+        ('bom', lambda: list(base)),
     ]
     for j in range(nvar):
         tag, fn = makers[(salt + j * 3) % len(makers)]
